@@ -174,7 +174,8 @@ pub fn gen(tier: &str, rng: &mut Rng, emit: &mut dyn FnMut(String)) {
     let n = if tier == "thorough" { 20_000 } else { 1_000 };
     for i in 0..n {
         let k = if i % 100 == 0 { 2000 } else { rng.below(12) };
-        let l: Vec<String> = (0..k).map(|_| super::token::random_text(rng, 6)).collect();
+        let tl = if i % 37 == 0 { 5000 } else if i % 11 == 0 { 300 } else { 6 };
+        let l: Vec<String> = (0..k).map(|_| super::token::random_text(rng, tl.min(if k > 100 { 40 } else { tl }))).collect();
         let fields: Vec<String> = l.iter().map(|t| hex(t.as_bytes())).collect();
         emit(format!("ftok {}", fields.join(" ")).trim_end().to_string());
         let p: String = l.iter().map(|t| format!("/{}", rfc_escape(t))).collect();
